@@ -166,6 +166,7 @@ class Element(UnicodeMixin):
 
         """
         root = Element(self.qname(), parent, self.namespace())
+        root.text = self.text
         for a in self.attributes:
             root.append(a.clone(self))
         for c in self.children:
